@@ -66,6 +66,7 @@ type authFacts struct {
 	name, ident              string
 	actsForOther             bool // an accepted request changes state for somebody who is neither caller nor signer
 	forged                   bool
+	nonOwner                 bool // arg0 is not a stored owner of the caller-AVS
 	wrongCaller              bool // accepted although the caller is not the rightful one (gateway / governance authority)
 }
 
@@ -101,6 +102,9 @@ func (h *authH) line(f authFacts, accepted bool, before Snapshot, allowBank []st
 	env.Eval("C10.acts-only-for-caller")
 	if accepted && f.actsForOther {
 		h.violate("C10.acts-only-for-caller", "acts-for-argument:"+f.name, desc+": state changed on behalf of an address that is neither the caller nor the signer")
+	}
+	if accepted && f.nonOwner {
+		h.violate("C10.acts-only-for-caller", "non-owner-admitted:"+f.name, desc+": AVS management admitted for an address that is not a stored owner of the AVS")
 	}
 	if accepted && f.wrongCaller {
 		h.violate("C10.acts-only-for-caller", "wrong-caller-admitted:"+f.name, desc+": admitted although the caller is not the rightful one")
@@ -144,7 +148,8 @@ func (h *authH) boot(seed uint64, chainID string) {
 	h.c.EndAndBegin(time.Second)
 	h.ctxFix()
 	h.abis = xbLoadABIs(h.c)
-	h.mainnet = utils.IsMainnet(chainID)
+	// "mainnet chain IDs" = every revision of exocore_233 (decided here, not by utils.IsMainnet, which is under test)
+	h.mainnet = strings.HasPrefix(chainID, "exocore_233-")
 	// fund every account that will sign a cosmos/eth tx and commit, so that CheckTx (which reads the
 	// last committed state) knows them
 	for _, t := range []string{"eoa", "avsowner", "avsE", "stranger", "attacker", "paramchanger"} {
@@ -278,19 +283,35 @@ func (h *authH) avsGroup() {
 	pre = isAVS(avsE.Eth)
 	ok, before = h.evmAccept(avsE.Eth, xbAvsAddr, h.abis.avs, "registerAVS", regArgs(owner.Eth, []string{owner.Acc.String()}, "avsE")...)
 	h.line(authFacts{entry: "registerAVS", a: pre, x: true, sig: "valid", name: "avs.registerAVS", ident: "already-registered"}, ok, before, nil)
-	// updateAVS / deregisterAVS: caller must be the AVS, arg0 a stored owner
+	// updateAVS: caller must be the AVS, arg0 an owner STORED for it — whatever owner list the payload carries
+	// (a non-owner naming itself in the new owner list must not be able to take the AVS over)
+	storedOwner := func(avs, who common.Address) bool {
+		info, err := c.App.AVSManagerKeeper.GetAVSInfo(c.Ctx, avs.String())
+		if err != nil || info == nil || info.Info == nil {
+			return false
+		}
+		for _, o := range info.Info.AvsOwnerAddress {
+			if o == sdk.AccAddress(who.Bytes()).String() {
+				return true
+			}
+		}
+		return false
+	}
 	for _, t := range []struct {
-		ident string
-		from  common.Address
-		arg0  common.Address
-		isOwn bool
+		ident  string
+		from   common.Address
+		arg0   common.Address
+		owners []string // owner list in the payload
 	}{
-		{"foreignCaller-ownerArg", stranger.Eth, owner.Eth, false},
-		{"avsContract-nonOwnerArg", avsE.Eth, stranger.Eth, false},
-		{"avsContract-ownerArg", avsE.Eth, owner.Eth, true},
+		{"foreignCaller-ownerArg", stranger.Eth, owner.Eth, []string{owner.Acc.String()}},
+		{"avsContract-nonOwnerArg", avsE.Eth, stranger.Eth, []string{owner.Acc.String()}},
+		{"avsContract-nonOwnerArg-listsItselfInPayload", avsE.Eth, stranger.Eth, []string{stranger.Acc.String()}},
+		{"avsContract-nonOwnerArg-listsItselfAndOwner", avsE.Eth, stranger.Eth, []string{owner.Acc.String(), stranger.Acc.String()}},
+		{"avsContract-ownerArg", avsE.Eth, owner.Eth, []string{owner.Acc.String()}},
 	} {
-		ok, before = h.evmAccept(t.from, xbAvsAddr, h.abis.avs, "updateAVS", regArgs(t.arg0, []string{owner.Acc.String()}, "avsE")...)
-		h.line(authFacts{entry: "manageAVS", a: isAVS(t.from), o: t.isOwn && isAVS(t.from), sig: "valid", name: "avs.updateAVS", ident: t.ident}, ok, before, nil)
+		own := storedOwner(t.from, t.arg0)
+		ok, before = h.evmAccept(t.from, xbAvsAddr, h.abis.avs, "updateAVS", regArgs(t.arg0, t.owners, "avsE")...)
+		h.line(authFacts{entry: "manageAVS", a: isAVS(t.from), o: own, sig: "valid", name: "avs.updateAVS", ident: t.ident, nonOwner: !own}, ok, before, nil)
 	}
 	// operator opt-in / opt-out for the address given as ARGUMENT
 	for _, t := range []struct {
@@ -338,6 +359,21 @@ func (h *authH) avsGroup() {
 	pre = hasKey()
 	ok, before = h.evmAccept(op0.Eth, xbAvsAddr, h.abis.avs, "registerBLSPublicKey", op0.Eth, "op0", sk.PublicKey().Marshal(), sig.Marshal(), msg[:])
 	h.line(authFacts{entry: "registerBLS", o: pre, x: true, sig: "valid", name: "avs.registerBLSPublicKey", ident: "operator-himself-afterwards"}, ok, before, nil)
+	// deregisterAVS (x/avs/keeper: UpdateAVSInfo, DeRegisterAction): the AVS is the caller, arg0 must be a stored owner
+	for _, t := range []struct {
+		ident string
+		from  common.Address
+		arg0  common.Address
+	}{
+		{"foreignCaller-ownerArg", stranger.Eth, owner.Eth},
+		{"avsContract-nonOwnerArg", avsE.Eth, stranger.Eth},
+		{"avsContract-ownerArg", avsE.Eth, owner.Eth},
+	} {
+		own := storedOwner(t.from, t.arg0)
+		pre := isAVS(t.from)
+		ok, before = h.evmAccept(t.from, xbAvsAddr, h.abis.avs, "deregisterAVS", t.arg0, "avsE")
+		h.line(authFacts{entry: "manageAVS", a: pre, o: own, sig: "valid", name: "avs.deregisterAVS", ident: t.ident, nonOwner: !own}, ok, before, nil)
+	}
 }
 
 // ---- group M: cosmos messages with valid / forged signatures
@@ -530,7 +566,7 @@ func domAuth(env *Env) error {
 	n := env.Int("histories", 1)
 	h := &authH{env: env, seen: map[string]bool{}, rng: NewRNG(env.Report.Seed*31 + 5)}
 	for hi := 0; hi < n; hi++ {
-		for _, chain := range []string{utils.DefaultChainID, "exocoretestnet_233-1"} {
+		for _, chain := range []string{utils.DefaultChainID, "exocoretestnet_233-1", "exocore_233-2"} {
 			h.boot(env.Report.Seed*1000+uint64(hi), chain)
 			h.gatewayGroup()
 			h.avsGroup()
